@@ -132,3 +132,18 @@ twin("C04-T1", "C04", "self.vals[0] = 0", M, "JunctionCompartment.initial_flush"
 twin("C04-T2", "C04", "initial_flush computes total first", M, "JunctionCompartment.initial_flush", "            for frac, link in zip(outflow_fractions, self.outlinks):\n                link.dest[0] += self.vals[0] * frac", "            total = self.vals[0]\n            for frac, link in zip(outflow_fractions, self.outlinks):\n                link.dest[0] += total * frac")
 twin("C04-T3", "C04", "residual balance with a flag like initial_flush", M, "ResidualJunctionCompartment.balance", "            if link.parameter is None and total_outflow < 1:", "            if total_outflow < 1 and link.parameter is None:")
 twin("C04-T4", "C04", "residual flush: >= 1 written first", M, "ResidualJunctionCompartment.initial_flush", "            if total_outflow < 1:\n                has_residual = True\n            else:\n                outflow_fractions /= total_outflow\n                has_residual = False", "            if total_outflow >= 1:\n                outflow_fractions /= total_outflow\n                has_residual = False\n            else:\n                has_residual = True")
+
+# =============================================================================================== C05
+mutant("C05-M3", "C05", "R05c", "TimedCompartment.connect always creates TimedLink", M, "TimedCompartment.connect", "            new_link = Link.create(pop=self.pop, parameter=par, source=self, dest=dest)", "            new_link = TimedLink.create(pop=self.pop, parameter=par, source=self, dest=dest)")
+mutant("C05-M4", "C05", "R05d", "row-0 zeroing of timed links deleted", M, "TimedCompartment.resolve_outflows", "                link._vals[0, ti] = 0.0  # No flow out of final subcompartment\n", "")
+mutant("C05-M5", "C05", "R05d", "timed links counted in row 0 of the total", M, "TimedCompartment.resolve_outflows", "total_outflow[1:] += link._cache", "total_outflow[:] += link._cache")
+mutant("C05-M6", "C05", "R05c", "JunctionCompartment.connect ignores the duration group", M, "JunctionCompartment.connect", "            TimedLink.create(pop=self.pop, parameter=par, source=self, dest=dest)", "            Link.create(pop=self.pop, parameter=par, source=self, dest=dest)")
+mutant("C05-M7", "C05", "R05e", "arrivals enter row 0", M, "TimedCompartment.update", "                self._vals[-1, ti] += link[tr]", "                self._vals[0, ti] += link[tr]")
+mutant("C05-M8", "C05", "R05e", "keyring shifts away from the flush row", M, "TimedCompartment.update", "            self._vals[0:-1, ti] = self._vals[1:, ti]", "            self._vals[1:, ti] = self._vals[0:-1, ti]")
+mutant("C05-M9", "C05", "R05e", "arrival row not zeroed after shift", M, "TimedCompartment.update", "            self._vals[-1, ti] = 0.0  # Zero out the inflow (otherwise, it just replicates previous value)\n", "")
+mutant("C05-M10", "C05", "R05c", "flush link assert removed", M, "TimedCompartment.connect", "            assert not isinstance(new_link, TimedLink), \"Cannot flush into the same duration group\"\n", "")
+mutant("C05-M11", "C05", "R05e", "flush link empties the last row", M, "TimedCompartment.resolve_outflows", "max(0, self._vals[0, ti] - self._cached_outflow[0])", "max(0, self._vals[-1, ti] - self._cached_outflow[0])")
+mutant("C05-M12", "C05", "R05c", "TimedCompartment.connect compares with the wrong group", M, "TimedCompartment.connect", "(isinstance(dest, TimedCompartment) and dest.parameter.name == self.parameter.name)", "isinstance(dest, TimedCompartment)")
+twin("C05-T2", "C05", "condition split into nested ifs in JunctionCompartment.connect", M, "JunctionCompartment.connect", "        if self.duration_group:\n", "        if self.duration_group is not None:\n")
+twin("C05-T3", "C05", "flush check as if/raise", M, "TimedCompartment.connect", "            assert not isinstance(new_link, TimedLink), \"Cannot flush into the same duration group\"\n", "            if isinstance(new_link, TimedLink):\n                raise ModelError(\"Cannot flush into the same duration group\")\n")
+twin("C05-T4", "C05", "shift slice written [:-1]", M, "TimedCompartment.update", "            self._vals[0:-1, ti] = self._vals[1:, ti]", "            self._vals[:-1, ti] = self._vals[1:, ti]")
